@@ -2,16 +2,21 @@
 
 (M)    TLC model-checks HeaderRulesMC: the stream operators of HeaderRules over a
        small universe of frames, with the nondeterminism the statement leaves.
-(M->R) TLC enumerates (HeaderRulesCases) every scenario of four families - one
-       probe header over the boundary alphabet, all short sequences of
-       pseudo-headers, lists of good and bad headers, content-length spellings x
+(M->R) TLC enumerates (HeaderRulesCases) every scenario of four families - A one
+       probe header over the boundary alphabet, B all short sequences of
+       pseudo-headers, C lists of good and bad headers, D content-length spellings x
        DATA frame sizes x trailers x end of stream - for requests, responses,
        trailers, push promises and pushed responses.  The driver encodes each
        header list with a raw pylsqpack.Encoder, frames it, feeds it under several
-       chunkings as StreamDataReceived events to a real H3Connection and records
-       the events the application gets and the close code.
-(V)    seeded random header lists / bodies / chunkings, recorded the same way.
-TLC (TraceHeaderRules) judges every record with the operators of HeaderRules.
+       chunkings as StreamDataReceived events to a real H3Connection (on a stub of
+       QuicConnection) and records the events the application gets and the close
+       code.  Family Q replays scenarios of B, C, D with header blocks that refer
+       to the QPACK dynamic table and arrive before the peer's encoder stream.
+(V)    seeded random header lists / bodies / chunkings / encodings, recorded the
+       same way.
+TLC (TraceHeaderRules) judges every record with the operators of HeaderRules:
+statement clauses -> VIOLATION, model: clauses (the implementation's additional
+rules) -> SPEC-DRIFT.
 """
 import json
 import os
@@ -253,22 +258,33 @@ def cuts_for(built, mode, rnd):
 
 
 # ------------------------------------------------------ TLC-enumerated families
-def tlc_cases(check, family, consts):
-    out = os.path.join(check.work, "cases_%s.ndjson" % family)
-    cfg = "CONSTANTS\nFamily = \"%s\"\n%s\n" % (family, consts)
-    r = check.run_tlc("HeaderRulesCases", cfg, name="HeaderRulesCases_" + family, workers=1,
+def tlc_cases(check, family, part, consts):
+    """One TLC run of HeaderRulesCases; returns (path of the NDJSON file, number of cases)."""
+    tag = "%s%d" % (family, part)
+    out = os.path.join(check.work, "cases_%s.ndjson" % tag)
+    cfg = "CONSTANTS\nFamily = \"%s\"\nPart = %d\n%s\n" % (family, part, consts)
+    r = check.run_tlc("HeaderRulesCases", cfg, name="HeaderRulesCases_" + tag, workers=1,
                       env={"CASES_OUT": out}, timeout=1500)
     if r.violated:
-        raise MachineryError("case generation failed (family %s): %s" % (family, r.violated))
+        raise MachineryError("case generation failed (family %s): %s" % (tag, r.violated))
     n = None
     for p in r.prints:
         if p.startswith('<<"CASES"'):
             n = int(p.rstrip(">").split(",")[-1])
-    cases = [json.loads(x) for x in open(out)]
-    os.unlink(out)
-    if n is None or n != len(cases):
-        raise MachineryError("family %s: TLC announced %s cases, file has %d" % (family, n, len(cases)))
-    return cases
+    if n is None:
+        raise MachineryError("family %s: TLC did not announce its cases" % tag)
+    return out, n
+
+
+def read_cases(path, n):
+    got = 0
+    with open(path) as f:
+        for line in f:
+            got += 1
+            yield json.loads(line)
+    os.unlink(path)
+    if got != n:
+        raise MachineryError("%s: TLC announced %d cases, file has %d" % (path, n, got))
 
 
 # ----------------------------------------------------------- random scenarios
@@ -382,7 +398,8 @@ def judge(check, records, metas, name):
     saved = os.environ.get("_JAVA_OPTIONS")
     os.environ["_JAVA_OPTIONS"] = "-XX:ParallelGCThreads=2 -XX:TieredStopAtLevel=1"
     try:
-        fails = trace.validate(check, "TraceHeaderRules", records, name=name)
+        fails = trace.validate(check, "TraceHeaderRules", records, name=name,
+                               shards=max(1, min(8 if check.quick else 16, len(records) // 1500)))
     finally:
         if saved is None:
             del os.environ["_JAVA_OPTIONS"]
@@ -406,6 +423,68 @@ def judge(check, records, metas, name):
 def is_nontrivial(rec):
     has_cl = any(bytes(h[0]) == b"content-length" for f in rec["frames"] for h in f["hs"])
     return rec["close"] != 0 or (has_cl and rec["fin"] != "none")
+
+
+def readable(rec):
+    """A record with its header lists as text, for the evidence samples."""
+    def hs(x):
+        return [[bytes(n).decode("latin-1"), bytes(v).decode("latin-1")] for n, v in x]
+    return {"role": rec["role"], "stream": rec["chan"], "end_of_stream": rec["fin"],
+            "sent": [f["t"] + (" %d" % f["n"] if f["t"] == "D" else " " + repr(hs(f["hs"]))) for f in rec["frames"]],
+            "events": [e["t"] + (" %d" % e["n"] if e["t"] == "D" else " " + repr(hs(e["hs"]))) + (" END" if e["end"] else "")
+                       for e in rec["events"]],
+            "close": hex(rec["close"]) if rec["close"] else "-"}
+
+
+class Sink:
+    """Collects records; every `size` of them are handed to TLC (one batch at a
+    time, in a helper thread, while the replay continues)."""
+
+    def __init__(self, check, size):
+        self.check, self.size = check, size
+        self.records, self.metas = [], []
+        self.pool = ThreadPoolExecutor(max_workers=1)
+        self.pending = []
+        self.batches = self.total = self.accepted = self.refused = self.multi_cl = 0
+        self.sampled = set()
+
+    def add(self, rec, meta):
+        check = self.check
+        self.total += 1
+        check.count((rec["role"], rec["chan"], rec["fin"], repr(rec["frames"]), repr(meta["cuts"]), meta["enc"]),
+                    nontrivial=is_nontrivial(rec))
+        if rec["close"]:
+            self.refused += 1
+        else:
+            self.accepted += 1
+            first = rec["frames"][0]
+            if first["t"] == "H" and any(e["end"] for e in rec["events"]) and \
+                    len({bytes(h[1]) for h in first["hs"] if bytes(h[0]) == b"content-length"}) > 1:
+                self.multi_cl += 1
+        key = (meta["family"][0], bool(rec["close"]))
+        if key not in self.sampled and (meta["family"][0] in "ADQ" or not rec["close"]) and len(self.sampled) < 6:
+            self.sampled.add(key)
+            check.sample({"family": meta["family"], "chunk sizes": meta["cuts"] or "whole", "encoding": meta["enc"],
+                          "case": readable(rec)})
+        self.records.append(rec)
+        self.metas.append(meta)
+        if len(self.records) >= self.size:
+            self.flush()
+
+    def flush(self):
+        if self.records:
+            self.batches += 1
+            self.pending.append(self.pool.submit(judge, self.check, self.records, self.metas,
+                                                 "TraceHeaderRules_%d" % self.batches))
+            self.records, self.metas = [], []
+        while len(self.pending) > 1:          # at most one batch waiting behind the one being judged
+            self.pending.pop(0).result()
+
+    def close(self):
+        self.flush()
+        for f in self.pending:
+            f.result()
+        self.pool.shutdown()
 
 
 def replay(check, rig):
@@ -436,66 +515,63 @@ def run(check):
         t0 = time.time()
 
     # (M) design-level model checking, and (M->R) TLC enumerating the scenarios:
-    # five independent TLC runs, side by side
+    # independent TLC runs side by side (large families in parts)
     common = "LN = %d\nLV = %d\nLP = %d\nThin = FALSE\nK = %d\nDup = %s\nNB = %d\nAllTemplates = %s" % (
-        (2, 3, 1, 4, "FALSE", 2, "FALSE") if quick else (3, 3, 2, 5, "TRUE", 3, "TRUE"))
-    with ThreadPoolExecutor(max_workers=5) as ex:
-        fut_m = ex.submit(check.run_tlc, "HeaderRulesMC",
-                          "SPECIFICATION Spec\nCONSTANT MaxBody = %d\nBig = %s\nINVARIANT TypeOk\n"
-                          "INVARIANT DeliveredWellFormed\nINVARIANT EndedMatches\n" % ((2, "FALSE") if quick else (3, "TRUE")),
-                          name="HeaderRulesMC", workers=4)
-        fut = {fam: ex.submit(tlc_cases, check, fam, common) for fam in "ABCD"}
-        r = fut_m.result()
-        families = {fam: fut[fam].result() for fam in "ABCD"}
-    if r.violated:
-        check.model_violation(r, "HeaderRulesMC")
-    lap("model_check_and_enumeration")
+        (2, 2, 1, 4, "FALSE", 2, "FALSE") if quick else (3, 3, 2, 5, "TRUE", 3, "TRUE"))
+    jobs = [("A", 0), ("B", 0), ("C", 0), ("D", 0)] if quick else \
+           [("A", k) for k in range(1, 7)] + [("B", k) for k in range(1, 7)] + [("C", 0)] + [("D", k) for k in range(1, 4)]
+    ex = ThreadPoolExecutor(max_workers=5 if quick else 6)
+    fut_m = ex.submit(check.run_tlc, "HeaderRulesMC",
+                      "SPECIFICATION Spec\nCONSTANT MaxBody = %d\nBig = %s\nINVARIANT TypeOk\n"
+                      "INVARIANT DeliveredWellFormed\nINVARIANT EndedMatches\n" % ((2, "FALSE") if quick else (3, "TRUE")),
+                      name="HeaderRulesMC", workers=4)
+    futs = [(fam, part, ex.submit(tlc_cases, check, fam, part, common)) for fam, part in jobs]
 
-    # the driver replays every enumerated scenario
+    # the driver replays every enumerated scenario; records are judged by TLC in
+    # batches while the replay (and the enumeration of later parts) goes on.
+    # Q: scenarios of B, C and D once more, their header blocks referring to the
+    # QPACK dynamic table and arriving before the peer's encoder stream (blocked,
+    # then resumed).
+    sink = Sink(check, 60000)
     plan = {"A": ("whole",),
             "B": ("whole",),
             "C": ("whole",) if quick else ("whole", "two", "bytes"),
-            "D": ("whole", "frames", "bytes") if quick else ("whole", "bytes", "rand")}
-    records, metas = [], []
+            "D": ("whole", "bytes") if quick else ("whole", "rand")}
+    qmax = 2 if quick else 3
     skipped = {}
-    fam_counts = {}
-    for fam in "ABCD":
-        cases = families[fam]
-        fam_counts[fam] = len(cases)
-        for scn in cases:
+    fam_counts = {"Q": 0}
+    waited = 0
+    for fam, part, fut in futs:
+        path, n = fut.result()
+        fam_counts[fam] = fam_counts.get(fam, 0) + n
+        for scn in read_cases(path, n):
             built = rig.build(scn)
             if not built[2]:
                 skipped[fam] = skipped.get(fam, 0) + 1
                 continue
             for mode in plan[fam]:
                 cuts = cuts_for(built, mode, rnd)
-                rec = rig.run(scn, cuts, built=built)
-                records.append(rec)
-                metas.append({"cuts": cuts, "enc": "lsqpack", "family": fam + "/" + mode})
-        lap("replay_" + fam)
-    # Q: enumerated scenarios again, their header blocks referring to the QPACK
-    # dynamic table and arriving before the peer's encoder stream (blocked, then resumed)
-    qmax = 2 if quick else 3
-    qcases = [c for c in families["B"] if all(len(f["hs"]) <= qmax for f in c["frames"])] + families["D"] + \
-             ([] if quick else families["C"])
-    waited = 0
-    for scn in qcases:
-        built = rig.build(scn, "dynamic")
-        if not built[2]:
-            skipped["Q"] = skipped.get("Q", 0) + 1
-            continue
-        waited += built[5] > 0
-        for mode in (("whole",) if quick else ("whole", "bytes")):
-            cuts = cuts_for(built, mode, rnd)
-            records.append(rig.run(scn, cuts, "dynamic", built=built))
-            metas.append({"cuts": cuts, "enc": "dynamic", "family": "Q/" + mode})
-    fam_counts["Q"] = len(qcases)
+                sink.add(rig.run(scn, cuts, built=built), {"cuts": cuts, "enc": "lsqpack", "family": fam + "/" + mode})
+            hs0 = scn["frames"][0]["hs"]
+            if (fam == "B" and len(hs0) <= qmax) or (fam == "C" and not quick) or \
+                    (fam == "D" and (quick or sum(1 for h in hs0 if bytes(h[0]) == b"content-length") <= 1)):
+                built = rig.build(scn, "dynamic")
+                fam_counts["Q"] += 1
+                if not built[2]:
+                    skipped["Q"] = skipped.get("Q", 0) + 1
+                    continue
+                waited += built[5] > 0
+                sink.add(rig.run(scn, None, "dynamic", built=built), {"cuts": None, "enc": "dynamic", "family": "Q/whole"})
+        lap("replay_%s%d" % (fam, part))
+    r = fut_m.result()
+    ex.shutdown()
+    if r.violated:
+        check.model_violation(r, "HeaderRulesMC")
     check.cov["Q_scenarios_with_a_block_waiting_for_the_encoder_stream"] = waited
-    lap("replay_Q")
     check.cov["tlc_enumerated_scenarios"] = fam_counts
 
     # (V) seeded random scenarios
-    nv = 8000 if quick else 150000
+    nv = 6000 if quick else 150000
     made = 0
     while made < nv:
         scn = rand_scenario(rnd)
@@ -510,38 +586,21 @@ def run(check):
         if not rec["ok"]:
             skipped["V"] = skipped.get("V", 0) + 1
             continue
-        records.append(rec)
-        metas.append({"cuts": cuts, "enc": how, "family": "V/" + mode})
-    check.cov["not_deliverable_by_qpack"] = skipped
-    if sum(skipped.values()) > len(records) // 10:
-        raise MachineryError("too many scenarios not deliverable through QPACK: %r" % skipped)
-
+        sink.add(rec, {"cuts": cuts, "enc": how, "family": "V/" + mode})
     lap("replay_V")
-    judge(check, records, metas, "TraceHeaderRules")
-    lap("judge")
+    sink.close()
+    lap("judge_tail")
     check.cov["phase_wall_s"] = phase
-
-    accepted = refused = 0
-    multi_cl = 0
-    for rec, meta in zip(records, metas):
-        check.count((rec["role"], rec["chan"], rec["fin"], repr(rec["frames"]), repr(meta["cuts"]), meta["enc"]),
-                    nontrivial=is_nontrivial(rec))
-        if rec["close"]:
-            refused += 1
-        else:
-            accepted += 1
-            cl = {bytes(h[1]) for h in rec["frames"][0]["hs"] if bytes(h[0]) == b"content-length"} \
-                if rec["frames"][0]["t"] == "H" else set()
-            if len(cl) > 1 and any(e["end"] for e in rec["events"]):
-                multi_cl += 1
-    if accepted < len(records) // 50 or refused < len(records) // 50:
-        raise MachineryError("implausible split accepted=%d refused=%d: the rig is not exercising the rules" % (accepted, refused))
-    check.cov["outcomes"] = {"accepted": accepted, "refused": refused}
+    check.cov["not_deliverable_by_qpack"] = skipped
+    if sum(skipped.values()) > sink.total // 10:
+        raise MachineryError("too many scenarios not deliverable through QPACK: %r" % skipped)
+    if sink.accepted < sink.total // 50 or sink.refused < sink.total // 50:
+        raise MachineryError("implausible split accepted=%d refused=%d: the rig is not exercising the rules"
+                             % (sink.accepted, sink.refused))
+    check.cov["outcomes"] = {"accepted": sink.accepted, "refused": sink.refused}
     check.cov["observations"] = {
         "streams accepted to their end although the header block carried several differing content-length values "
-        "(the implementation keeps the last one; the statement is not explicit, not judged)": multi_cl}
-    for i in (0, len(records) // 3, len(records) // 2, len(records) - 1):
-        check.sample({"family": metas[i]["family"], "cuts": metas[i]["cuts"], "record": records[i]})
+        "(the implementation keeps the last one; the statement is not explicit, not judged)": sink.multi_cl}
     check.cov["exhaustive"] = True
     check.cov["rule"] = ("one case = one stream (role, request or push stream, frames with their header lists, where the "
                          "end of stream is, chunking, QPACK encoding) replayed into a fresh H3Connection; families A-D are "
@@ -558,6 +617,6 @@ def run(check):
         "header blocks come from a raw pylsqpack.Encoder (static table and literals), a hand-written literal encoding, or "
         "(family Q, a fifth of V) refer to the dynamic table and arrive before the peer's encoder stream; blocks that "
         "ls-qpack's decoder refuses (empty field section, empty name) are counted, not judged",
-        "a content-length declares a length when it is 1*DIGIT of at most 9 digits; with several differing declarations only "
-        "'no declared value matches' is judged",
+        "a content-length field declares a length when it is 1*DIGIT; when a block has several content-length fields only "
+        "'the body equals none of them, however liberally read' is judged",
         "a PUSH_PROMISE block is a request block: it needs :method"]
